@@ -249,8 +249,10 @@ def check_tables(ctx):
             continue
         i = names.index(getter)
         ctx.tag("table-row")
-        ctx.compare({"cls": cls, "attr": attr}, {"flips_eq": row["eq"], "flips_hash": row["hash"]},
-                    {"flips_eq": tb[cls]["eq"][i], "flips_hash": tb[cls]["hash"][i]}, f"truth-table row {cls}.{attr}")
+        # == must flip for exactly the attributes __eq__ reads; the hash may only flip for attributes __hash__ reads (a hash
+        # over sets / value sets is lossy, so "never flipped in this run" is no disagreement; each pair is compared anyway)
+        ctx.compare({"cls": cls, "attr": attr}, {"flips_eq": row["eq"], "hash_flip_outside_table": row["hash"] and not tb[cls]["hash"][i]},
+                    {"flips_eq": tb[cls]["eq"][i], "hash_flip_outside_table": False}, f"truth-table row {cls}.{attr}")
 
 
 def check_signatures(ctx):
@@ -265,8 +267,8 @@ def check_signatures(ctx):
         extra = ["lanelets", "intersections", "traffic_signs", "traffic_lights", "areas"] if cls == "LaneletNetwork" else \
             ["lanelet_network", "static_obstacles", "dynamic_obstacles", "environment_obstacle", "phantom_obstacle"] if cls == "Scenario" else []
         ctx.compare({"cls": cls}, sig + extra, mine + extra, f"constructor parameters of {cls} vs generator spec")
-        if cls in tb:
-            ctx.compare({"cls": cls}, [p.getter for p in spec.params], tb[cls]["attrs"], f"attributes of {cls} vs model table")
+        if spec.family in tb:
+            ctx.compare({"cls": cls}, [p.getter for p in spec.params], tb[spec.family]["attrs"], f"attributes of {cls} vs model table")
         else:
             ctx.compare({"cls": cls}, "class", "no model table", f"{cls} has no table in the model")
 
